@@ -5,16 +5,19 @@ namespace Pds.Cms
 /-- the history that replays a weighted stream by `add_n` -/
 def replay (str : List (Nat × Nat)) : List Op := str.map fun e => .addN e.1 e.2
 
+theorem streamFrom_replay (str acc : List (Nat × Nat)) : streamFrom (replay str) acc = acc ++ str := by
+  induction str generalizing acc with
+  | nil => simp [replay, streamFrom]
+  | cons e str ih =>
+    have := ih (acc ++ [(e.1, e.2)])
+    simp only [replay, List.map_cons, streamFrom, streamStep] at this ⊢
+    rw [this]; simp
+
 theorem stream_replay (str : List (Nat × Nat)) : stream (replay str) = str := by
-  have : ∀ acc, streamFrom (replay str) acc = acc ++ str := by
-    induction str with
-    | nil => intro acc; simp [replay, streamFrom]
-    | cons e str ih =>
-      intro acc
-      have := ih (acc ++ [(e.1, e.2)])
-      simp only [replay, List.map_cons, streamFrom, streamStep] at this ⊢
-      rw [this]; simp
-  simpa [stream] using this []
+  simpa [stream] using streamFrom_replay str []
+
+theorem replay_append (a b : List (Nat × Nat)) : replay (a ++ b) = replay a ++ replay b := by
+  simp [replay]
 
 /-- Replaying a stream from a state succeeds as long as the final cell sums fit the counter. -/
 theorem runFrom_replay {hash : List Nat → Nat} {w d cmax : Nat} (hw : 0 < w) (hd : 0 < d) :
@@ -54,27 +57,23 @@ theorem inv_cellSum_le {hash : List Nat → Nat} {w d cmax : Nat} {s : St} {str 
     (h : Inv hash w d cmax s str) : ∀ r c, c < w → cellSum hash w d r c str ≤ cmax := by
   intro r c hc; rw [← h.hcell r c hc]; exact h.hle _
 
-/-- `A.merge(B)` is the sketch obtained by feeding A's stream and then B's stream to a fresh sketch
-(as `Option`s: the merge panics iff the replay does). -/
-theorem merge_eq_replay {hash : List Nat → Nat} {w d cmax : Nat} (hw : 0 < w) (hd : 0 < d)
-    {A B : List Op} {a b : St} (ha : run hash w d cmax A = some a) (hb : run hash w d cmax B = some b) :
-    merge a b = run hash w d cmax (replay (stream A ++ stream B)) := by
-  have ia := run_inv hw hd ha
-  have ib := run_inv hw hd hb
-  rw [run_eq hw]
+/-- Merging `b` into `a` is replaying `b`'s stream on `a` (as `Option`s: the merge panics iff the
+replay does). -/
+theorem merge_eq_runFrom_replay {hash : List Nat → Nat} {w d cmax : Nat} (hw : 0 < w) (hd : 0 < d)
+    {a b : St} {sa sb : List (Nat × Nat)} (ia : Inv hash w d cmax a sa) (ib : Inv hash w d cmax b sb) :
+    merge a b = runFrom hash w d cmax (replay sb) a := by
   cases hm : merge a b with
   | some s =>
     have is := inv_merge ia ib hm
-    obtain ⟨s', hr, is'⟩ := runFrom_replay hw hd (stream A ++ stream B) _ []
-      (inv_fresh hash w d cmax) (by simpa using inv_cellSum_le is)
-    rw [hr, inv_unique hw is (by simpa using is')]
+    obtain ⟨s', hr, is'⟩ := runFrom_replay hw hd sb a sa ia (inv_cellSum_le is)
+    rw [hr, inv_unique hw is is']
   | none =>
-    cases hr : runFrom hash w d cmax (replay (stream A ++ stream B)) ⟨w, d, cmax, Array.replicate (w * d) 0⟩ with
+    cases hr : runFrom hash w d cmax (replay sb) a with
     | none => rfl
     | some s' =>
       exfalso
-      have is' := run_inv hw hd (by rw [run_eq hw]; exact hr)
-      rw [stream_replay] at is'
+      have is' := runFrom_inv hw hd _ _ _ _ ia hr
+      rw [streamFrom_replay] at is'
       rcases (merge_spec (s := a) (o := b) (by rw [ia.hsize, ib.hsize])).1.mp hm with hsh | ⟨j, hlt⟩
       · exact hsh ⟨by rw [ia.hd, ib.hd], by rw [ia.hw, ib.hw]⟩
       · by_cases hj : j < w * d
@@ -84,6 +83,35 @@ theorem merge_eq_replay {hash : List Nat → Nat} {w d cmax : Nat} (hw : 0 < w) 
           omega
         · rw [cell_of_ge (by rw [ia.hsize]; omega), cell_of_ge (by rw [ib.hsize]; omega)] at hlt
           omega
+
+/-- A reachable state is reproduced by replaying its stream on a fresh sketch. -/
+theorem run_replay_stream {hash : List Nat → Nat} {w d cmax : Nat} (hw : 0 < w) (hd : 0 < d)
+    {A : List Op} {a : St} (ha : run hash w d cmax A = some a) :
+    run hash w d cmax (replay (stream A)) = some a := by
+  have ia := run_inv hw hd ha
+  obtain ⟨s', hr, is'⟩ := runFrom_replay hw hd (stream A) _ [] (inv_fresh hash w d cmax)
+    (by simpa using inv_cellSum_le ia)
+  rw [run_eq hw, hr, inv_unique hw ia (by simpa using is')]
+
+/-- `A.merge(B)` is the sketch obtained by feeding A's stream and then B's stream to a fresh sketch
+(as `Option`s: the merge panics iff the replay does). -/
+theorem merge_eq_replay {hash : List Nat → Nat} {w d cmax : Nat} (hw : 0 < w) (hd : 0 < d)
+    {A B : List Op} {a b : St} (ha : run hash w d cmax A = some a) (hb : run hash w d cmax B = some b) :
+    merge a b = run hash w d cmax (replay (stream A ++ stream B)) := by
+  rw [replay_append, run_append, run_replay_stream hw hd ha, Option.bind_some]
+  exact merge_eq_runFrom_replay hw hd (run_inv hw hd ha) (run_inv hw hd hb)
+
+/-- The `merge` step of a history can be replaced by replaying the other sketch's stream. -/
+theorem run_merge_eq_run_replay {hash : List Nat → Nat} {w d cmax : Nat} (hw : 0 < w) (hd : 0 < d)
+    {A B : List Op} {b : St} (hb : run hash w d cmax B = some b) :
+    run hash w d cmax (A ++ [.merge B]) = run hash w d cmax (A ++ replay (stream B)) := by
+  rw [run_append, run_append]
+  cases ha : run hash w d cmax A with
+  | none => rfl
+  | some a =>
+    simp only [Option.bind_some, runFrom, step_merge, hb]
+    rw [← merge_eq_runFrom_replay hw hd (run_inv hw hd ha) (run_inv hw hd hb)]
+    cases merge a b <;> rfl
 
 /-! ### commutativity and associativity -/
 
